@@ -292,6 +292,9 @@ class Interp:
             if isinstance(obj, (z3.ExprRef, Opaque)) or hasattr(obj, "pz_call"):
                 raise Unsupported(f"isinstance({obj!r}, {cls})")
             return isinstance(obj, cls)
+        owner = getattr(fn, "__self__", None)
+        if isinstance(owner, (list, dict, set)) and getattr(fn, "__name__", "") in ("append", "extend", "get", "keys", "values", "items", "add"):
+            return fn(*args, **kwargs)
         if _all_concrete(args) and _all_concrete(kwargs.values()) and callable(fn):
             mod = getattr(fn, "__module__", "") or ""
             if mod in ("builtins",) or fn in (len, min, max, abs):
@@ -359,6 +362,16 @@ class Interp:
                 self._assign(s.target, self._expr(s.value, fr), fr)
             return
         if isinstance(s, ast.Assert):
+            return
+        if isinstance(s, ast.For):
+            it = self._expr(s.iter, fr)
+            if not isinstance(it, (list, tuple)):
+                raise Unsupported("for over a non-concrete iterable")
+            if s.orelse:
+                raise Unsupported("for/else")
+            for item in list(it):
+                self._assign(s.target, item, fr)
+                self._block(s.body, fr)
             return
         raise Unsupported(f"statement {type(s).__name__} at line {getattr(s, 'lineno', '?')} of {fr.fn.__qualname__}")
 
